@@ -297,7 +297,37 @@ func writeTo(s *smf.SMF, d *simio.Disk) writeOutcome {
 
 // panicKey gives a short structural key for a panic message.
 func panicKey(msg string) string {
-	return "panic:" + core.Trunc(msg, 40)
+	return "panic:" + structKey(msg, 48)
+}
+
+// structKey strips numbers and hex values from a message so that it names the kind of
+// failure, not the instance.
+func structKey(msg string, n int) string {
+	var out []byte
+	prevSpace := false
+	for i := 0; i < len(msg); i++ {
+		c := msg[i]
+		if c >= '0' && c <= '9' {
+			break // the text before the first number names the kind of failure
+		}
+		if c == ' ' || c == '\n' || c == '\t' {
+			if prevSpace {
+				continue
+			}
+			prevSpace = true
+			c = ' '
+		} else {
+			prevSpace = false
+		}
+		out = append(out, c)
+	}
+	for len(out) > 0 && out[len(out)-1] == ' ' {
+		out = out[:len(out)-1]
+	}
+	if len(out) > n {
+		out = out[:n]
+	}
+	return string(out)
 }
 
 // ---------------------------------------------------------------------------
